@@ -111,7 +111,7 @@ CRAFTED = [
 ]
 
 # large-count lists up to this many lines are also run through the pipeline model inside coqc
-MODEL_LINES = 3000
+MODEL_LINES = {"quick": 12000, "thorough": 130000}
 
 PIPE_HEADER = ["From Coq Require Import List NArith ZArith Bool Floats.",
                "From Pcfg Require Import Str TextFile Counters IoCorr Pipeline PipelineCorr.",
@@ -192,20 +192,31 @@ def near_counts(rng, k, scale):
     return out
 
 
+_LB = []
+
+
+def has_linebreak(p):
+    if not _LB:
+        _LB.append(set(trainer_io.char_classes()["linebreak"]))
+    return any(ord(c) in _LB[0] for c in p)
+
+
 def mask_apply(word, mask):
     return "".join(c.upper() if m == "U" else c for c, m in zip(word, mask))
 
 
-def gen_weighted(rng, enc, scale, dominant=None, nfam=None):
+W_FAMILIES = ["alpha", "digits", "other", "years", "walks", "context", "masks", "base"]
+
+
+def gen_weighted(rng, enc, scale, first, dominant=(), extra=None):
     """A training history in which the values of ONE rules file were each seen very often and almost equally often:
     values of one terminal file (alpha words of one length, digits / symbols of one length, years, keyboard walks, context
-    strings), capitalisation masks of one length, base structures - one to three such families in one list - plus a tail
-    of rare passwords and optionally one dominant password.  Returns ([(password, count)], [family names])."""
+    strings), capitalisation masks of one length, base structures - the family `first` and up to two more in one list - plus
+    a tail of rare passwords and optionally dominant passwords.  Returns ([(password, count)], [family names])."""
     L = rng.choice([4, 5, 6])
     words = list(W_WORDS[L]) + (W_WORDS_ENC.get(enc, {}).get(L, []) if rng.random() < 0.5 else [])
     rng.shuffle(words)
-    fams = rng.sample(["alpha", "digits", "other", "years", "walks", "context", "masks", "base", "base", "alpha", "masks"],
-                      nfam or rng.choice([1, 1, 2, 3]))
+    fams = [first] + rng.sample([f for f in W_FAMILIES if f != first], rng.choice([0, 0, 1, 2]) if extra is None else extra)
     entries, names = [], []
     for fam in dict.fromkeys(fams):
         k = rng.randint(2, 5)
@@ -247,10 +258,10 @@ def gen_weighted(rng, enc, scale, dominant=None, nfam=None):
         entries += [(a, rng.randint(5, 9)), (b, rng.randint(5, 9)), (a + b, rng.choice([1, 2, 101])), (b.capitalize() + a + "1", 1)]
         names.append("multiword")
     for p, c in trainer_io.gen_entries(rng, enc, n_distinct=rng.randint(2, 6)):
-        if not (trainer_io.is_hex_shaped(p) or trainer_io.has_linebreak(p) or "\r" in p or "\n" in p or "\t" in p):
+        if not (trainer_io.is_hex_shaped(p) or has_linebreak(p) or "\r" in p or "\n" in p or "\t" in p):
             entries.append((p, c))
-    if dominant:
-        entries.append((rng.choice(["password1", "123456", "Password", "iloveyou"]), dominant))
+    for pw, c in zip(rng.sample(["password1", "123456", "Password", "iloveyou"], len(dominant)), dominant):
+        entries.append((pw, c))
         names.append("dominant")
     entries = [(p, c) for p, c in entries if trainer_io.encodable(p, enc)]
     rng.shuffle(entries)
@@ -315,17 +326,12 @@ def run_session(g, limit=None, cap_items=20000, cap_guesses=2000000):
 
 def judge_session(ref, got, limit, supported):
     """ref: the first complete session of the freshly loaded grammar.  got: a later session on the same grammar object.
-    Returns (kind, text) or None."""
+    Returns (kind, text) or None: the property's own oracles on the later session first (every supported training password
+    emitted, probabilities sum to 1), then equality with the first session, guess for guess."""
     if got is None:
         return ("raised", "a later session on the same loaded grammar raised or did not end")
     if limit:
-        want = [s for _, _, ls in ref for s in ls][:limit]
-        have = [s for _, _, ls in got for s in ls]
-        if have != want:
-            k = next((j for j, (a, b) in enumerate(zip(have, want)) if a != b), min(len(have), len(want)))
-            return ("limited-not-prefix", "a session limited to %d guesses gives %d guesses, the first difference from the complete "
-                    "session is at guess %d: %r instead of %r" % (limit, len(have), k, have[k:k + 1], want[k:k + 1]))
-        return None
+        return None     # a limited session is only part of the history: C03 speaks about complete generation
     if got == ref:
         return None
     lang = set(s for _, _, ls in got for s in ls)
@@ -343,7 +349,7 @@ def judge_session(ref, got, limit, supported):
 def histories(g, reload, ref, supported, k_limit):
     """Sessions after the first complete one.  On the SAME grammar object: a limited session, a complete one; on a freshly
     loaded grammar: a limited session first, then a complete one.  Each complete session must equal the first one guess
-    for guess, each limited one must be its prefix.  Returns (history, kind, text) of the first failure or None."""
+    for guess.  Returns (history, kind, text) of the first failure or None."""
     hist = [["complete", None]]
     for lim in (k_limit, None):
         hist.append(["limited", lim] if lim else ["complete", None])
@@ -417,7 +423,7 @@ def process(ctx, st, code, name, rd, tree, passwords, enc, cov, replay, rle=None
         nlines = sum(n for _, n in rle) if rle is not None else len(passwords)
         if (len(distinct) <= (24 if rle is not None else 14) and nlines <= (model_cap or 60) and nguess <= 1500
                 and len(st.pipe_cases) < ctx.scale(34, 260)
-                and not any(trainer_io.is_hex_shaped(p) or trainer_io.has_linebreak(p) or "\r" in p or "\n" in p
+                and not any(trainer_io.is_hex_shaped(p) or has_linebreak(p) or "\r" in p or "\n" in p
                             for p in passwords)):
             st.pipe_cases.append((pipeline_case(passwords, enc, cov, g, tree, all_lines, rle), replay, nlines))
             dist["pipeline_model_runs"] += 1
@@ -485,16 +491,43 @@ def run(ctx):
     sc = common.scratch()
     st = State()
     vio, dist = st.vio, st.dist
-    # the lists with one dominant password (10^5) are trained beside everything else: the trainer needs ~10 s for them
-    wrng = __import__("random").Random(ctx.rng.getrandbits(64))
-    big = []
+    # The training histories with large counts are generated first and trained by a few trainer.py processes that run
+    # beside the rest of the check (the lists with a dominant password of 10^5 need ~10 s each).
+    wrng = __import__("random").Random("C03-large-counts-%s" % ctx.seed)
+    jobs = []
     for j in range(ctx.scale(1, 4)):
         enc, cov = wrng.choice(["utf-8", "utf-8", "latin-1", "cp1251"]), wrng.choice([0.3, 0.6, 0.9, 1.0])
-        entries, fams = gen_weighted(wrng, enc, "h", dominant=wrng.choice([100000, 100000, 99999, 123457]), nfam=2)
-        rle = sequence_of(wrng, entries, True)
-        fn = os.path.join(sc, "big_%d.txt" % j)
-        write_training(fn, rle, enc, True)
-        big.append((j, enc, cov, rle, fams, train_start(code, fn, "B%d" % j, enc, cov, 4, True)))
+        dom = [wrng.choice([100000, 100000, 99999, 123457])]
+        if j % 2 == 1:
+            dom.append(dom[0] - wrng.choice([0, 1, 50, 900]))      # two dominant passwords, less than 1 percent apart
+        entries, fams = gen_weighted(wrng, enc, "h", wrng.choice(W_FAMILIES), dominant=dom, extra=1)
+        jobs.append({"name": "B%d" % j, "enc": enc, "cov": cov, "ngram": 4, "prefixcount": True, "fams": fams,
+                     "rle": sequence_of(wrng, entries, True)})
+    for i in range(ctx.scale(16, 160)):
+        enc = wrng.choice(["utf-8", "utf-8", "latin-1", "cp1251"])
+        cov = wrng.choice([0.3, 0.6, 0.9, 0.95, 1.0])
+        ngram = wrng.choice([2, 3, 4])
+        # every family as the first one, with --prefixcount and with repeated lines, in every 16 lists
+        first = W_FAMILIES[i % 8]
+        prefixcount = (i // 8) % 2 == 0
+        scale = "hhhkhhhhhkhhhthh"[i % 16]
+        dom = [wrng.choice([2000, 5003])] if scale == "h" and wrng.random() < 0.4 else []
+        entries, fams = gen_weighted(wrng, enc, scale, first, dominant=dom, extra=0 if scale == "t" else None)
+        jobs.append({"name": "W%d" % i, "enc": enc, "cov": cov, "ngram": ngram, "prefixcount": prefixcount, "fams": fams,
+                     "rle": sequence_of(wrng, entries, prefixcount)})
+
+    def pump(limit=5):
+        running = sum(1 for jb in jobs if jb.get("proc") is not None and jb["proc"].poll() is None)
+        for jb in jobs:
+            if running >= limit:
+                break
+            if "proc" not in jb:
+                fn = os.path.join(sc, "w_%s.txt" % jb["name"])
+                write_training(fn, jb["rle"], jb["enc"], jb["prefixcount"])
+                jb["proc"] = train_start(code, fn, jb["name"], jb["enc"], jb["cov"], jb["ngram"], jb["prefixcount"])
+                running += 1
+    os.makedirs(os.path.join(code, "Rules"), exist_ok=True)     # the trainers that run side by side never create it at once
+    pump()
     for i in range(nlists + len(CRAFTED)):
         enc = ctx.rng.choice(["utf-8", "utf-8", "latin-1", "cp1251"])
         cov = ctx.rng.choice([0.3, 0.6, 0.9, 0.95, 1.0])
@@ -532,6 +565,7 @@ def run(ctx):
             dist["multiword_histories"] = dist.get("multiword_histories", 0) + 1
         if not passwords:
             continue
+        pump()
         fn = os.path.join(sc, "train_%d.txt" % i)
         with open(fn, "wb") as f:
             for p in passwords:
@@ -543,6 +577,9 @@ def run(ctx):
             dist["train_failed"] += 1
             continue
         process(ctx, st, code, name, os.path.join(code, "Rules", name), tree, passwords, enc, cov, replay)
+
+    import time
+    t_lists = time.time()
 
     # training histories with large, almost equal counts (--prefixcount lists and repeated lines)
     def weighted(name, enc, cov, ngram, prefixcount, rle, fams, tree, model_cap):
@@ -556,36 +593,23 @@ def run(ctx):
         dist["weighted_lines"] += sum(n for _, n in rle)
         process(ctx, st, code, name, os.path.join(code, "Rules", name), tree, [p for p, _ in rle], enc, cov, replay, rle=rle,
                 model_cap=model_cap)
-    nw = ctx.scale(10, 120)
-    for i in range(nw):
-        enc = wrng.choice(["utf-8", "utf-8", "latin-1", "cp1251"])
-        cov = wrng.choice([0.3, 0.6, 0.9, 0.95, 1.0])
-        ngram = wrng.choice([2, 3, 4])
-        scale = "h" if i % 10 < 7 else ("k" if i % 10 < 9 else "t")
-        prefixcount = wrng.random() < 0.5
-        entries, fams = gen_weighted(wrng, enc, scale, dominant=wrng.choice([None, None, 2000, 5003]) if scale == "h" else None,
-                                     nfam=1 if scale == "t" else None)
-        rle = sequence_of(wrng, entries, prefixcount)
-        fn = os.path.join(sc, "wtrain_%d.txt" % i)
-        write_training(fn, rle, enc, prefixcount)
-        name = "W%d" % i
-        rc, out, err, tree = trainer_io.train_cli(code, fn, name, enc, coverage=cov, prefixcount=prefixcount, ngram=ngram)
-        if rc != 0 or not tree:
-            dist["train_failed"] += 1
-            continue
-        weighted(name, enc, cov, ngram, prefixcount, rle, fams, tree, MODEL_LINES)
-    for j, enc, cov, rle, fams, proc in big:
+    for jb in jobs:
+        while "proc" not in jb:
+            pump()
+            time.sleep(0.05)
         try:
-            rc = proc.wait(timeout=600)
+            rc = jb["proc"].wait(timeout=900)
         except Exception:
-            proc.kill()
+            jb["proc"].kill()
             rc = -1
-        rd = os.path.join(code, "Rules", "B%d" % j)
+        pump()
+        rd = os.path.join(code, "Rules", jb["name"])
         tree = trainer_io.read_tree(rd) if rc == 0 and os.path.isdir(rd) else {}
         if rc != 0 or not tree:
             dist["train_failed"] += 1
             continue
-        weighted("B%d" % j, enc, cov, 4, True, rle, fams, tree, 0)
+        weighted(jb["name"], jb["enc"], jb["cov"], jb["ngram"], jb["prefixcount"], jb["rle"], jb["fams"], tree, MODEL_LINES[ctx.tier])
+    t_big = time.time()
     cases, pipe_cases = st.cases, st.pipe_cases
     # correspondence for the mask round trip (the only new model function of C03): mask_of / lower / apply on real tiles
     shards = []
@@ -629,12 +653,14 @@ def run(ctx):
             corr.append(("mask-roundtrip:" + name, False, "mask_of/lower/apply do not give back the tile for cases %s" % idx[:10]))
         else:
             corr.append(("mask-roundtrip:" + name, True, ""))
+    dist["seconds"] = {"small_lists": round(t_lists - ctx.t0, 1), "large_count_lists": round(t_big - t_lists, 1),
+                       "coq_cases": round(time.time() - t_big, 1)}
     rule = ("generated training lists (words, capitalised words, multi-words, digits, years, symbols, keyboard walks, context strings, "
             "spaces, Latin-1 / Cyrillic / Cherokee / Georgian letters and digraphs with a separate title case, three-word passwords followed by "
             "their two-word tails, non-ASCII spaces / format / private-use characters, e-mails, websites, duplicates) in utf-8 / latin-1 / cp1251, coverage 0.3 / 0.6 / 1, n-gram 2-4; "
             "PLUS training histories with large counts (--prefixcount lists and repeated lines, blocks or first-seen order different from "
             "count order): 2-5 values of ONE rules file - alpha words of one length, digits / symbols of one length, years, keyboard "
-            "walks, context strings, capitalisation masks of one length, base structures; one to three such families per list - seen "
+            "walks, context strings, capitalisation masks of one length, base structures; every family first in turn, with --prefixcount and with repeated lines, up to two more families per list - seen "
             "100..400 (neighbours 0-3 apart), 1000..3000 or 10000..12000 (neighbours less than 1 percent apart) times each, a rare tail, words often "
             "enough to split multi-words, optionally one dominant password (2000 / 5003 / 10^5; the 10^5 lists are trained beside the "
             "rest of the run); "
@@ -642,12 +668,12 @@ def run(ctx):
             "password must be in it and the probabilities must sum to 1 (1e-9); then the SAME loaded grammar object is used again "
             "(each session with its own new PcfgQueue, driven like CrackingSession.run): a session limited to k guesses and a complete "
             "one, and on a freshly loaded grammar a limited session first and then a complete one - every complete session must equal the "
-            "first one guess for guess, every limited one must be its prefix; non-trivial = password with >= 2 segments, capitals or "
+            "first one guess for guess; non-trivial = password with >= 2 segments, capitals or "
             "non-ASCII; distinct by (password, encoding).  Lists with <= 14 distinct passwords and <= 1500 guesses, the large-count lists "
             "with <= %d lines, plus three fixed lists "
             "at the edges of the trainer's comparisons, are also run through the pipeline MODEL inside coqc (binary64, repr/float() "
             "tables of the interpreter; the model parses every repeated line like the trainer): loaded grammar, base structures and the multiset of guesses must coincide with the real "
-            "trainer -> guesser, and the float sanity check f64_arith_ok of C03_reproduced must hold" % MODEL_LINES)
+            "trainer -> guesser, and the float sanity check f64_arith_ok of C03_reproduced must hold" % MODEL_LINES[ctx.tier])
     return {"evaluations": dist["passwords"], "distinct_nontrivial": st.nontrivial, "rule": rule, "samples": st.samples,
             "corr": corr, "violations": vio, "dist": dist}
 
